@@ -23,7 +23,9 @@ and the language documents — never from the compiler or the VM:
   unknown label, return outside a function, match arms of different pattern types.
 
 Where the documents are silent the outcome is `unc` (unconstrained): the oracle then makes no
-demand on the implementation.
+demand on the implementation.  In particular the oracle looks into containers through a view of bounded
+depth (`reifyDepth`); a value nested deeper than that (or cyclic) is not cut off silently: every
+construct that looks into it is `unc` (`reifyM` / `expandsWithin`).
 -/
 namespace P2sh.Ref
 
@@ -142,7 +144,24 @@ def mkClos (c : RClos) : M Val := do
   set { s with clos := s.clos ++ [c] }
   return .clos emptyFn [] (s.clos.length + 1)
 
-def reifyM (v : Val) : M Val := do return reify (← get).heap reifyDepth v
+/-- does `reify h fuel v` expand EVERY reference inside `v`?  Mirrors the recursion of `reify`: where its fuel runs
+out on a container the expansion is cut off (`false`); scalars, functions, … have nothing to expand (`true`). -/
+def expandsWithin (h : Heap) : Nat → Val → Bool
+  | 0, .arr .. => false
+  | 0, .map .. => false
+  | 0, _ => true
+  | fuel+1, .arr id xs =>
+    (if id == 0 then xs else h.getArr id).all (expandsWithin h fuel)
+  | fuel+1, .map id kvs =>
+    (if id == 0 then kvs else h.getMap id).all fun (k, v) => expandsWithin h fuel k && expandsWithin h fuel v
+  | _+1, _ => true
+
+/-- the structural view of a value (references expanded).  A value nested deeper than `reifyDepth` (or a cyclic
+one) has no complete view: whatever looks INTO it -- an operator, a truth test, a `match`, a key comparison, a
+builtin -- is then unconstrained (`unc`): the oracle does not commit on a cut-off expansion. -/
+def reifyM (v : Val) : M Val := do
+  let s ← get
+  if expandsWithin s.heap reifyDepth v then return reify s.heap reifyDepth v else throw .unc
 
 def reflectM (v : Val) : M Val := do
   let s ← get
